@@ -90,16 +90,24 @@ Product(altss) ==
        FoldLeft(LAMBDA acc, a : acc \o [j \in 1..Len(rest) |-> <<a>> \o rest[j]], <<>>, Head(altss))
 
 Expand(comps) == Product([i \in 1..Len(comps) |-> CompAlts(comps[i])])
-NumPaths(comps) == FoldLeft(LAMBDA acc, items : acc * Len(CompAlts(items)), 1, comps)
 
-\* The result for a whole string: [ok, paths]
+\* how many paths (saturating at Cap so that "0-2147483647/0-2147483647" neither overflows nor is expanded)
+Cap == 1000000
+ItemCount(it) == IF it.hi < it.lo THEN 0 ELSE IF it.hi - it.lo >= Cap THEN Cap ELSE it.hi - it.lo + 1
+SatAdd(a, b) == IF a + b >= Cap THEN Cap ELSE a + b
+SatMul(a, b) == IF a = 0 \/ b = 0 THEN 0 ELSE IF a > Cap \div b THEN Cap ELSE IF a * b >= Cap THEN Cap ELSE a * b
+CompCount(items) == FoldLeft(LAMBDA acc, it : SatAdd(acc, ItemCount(it)), 0, items)
+NumPaths(comps) == FoldLeft(LAMBDA acc, items : SatMul(acc, CompCount(items)), 1, comps)
+
+\* The result for a whole string: [ok, comps]; its paths are Expand(comps)
 Parse(s) == LET st == Run(s) IN
-            IF Accepting(st) THEN [ok |-> TRUE, paths |-> Expand(Comps(st))]
-            ELSE [ok |-> FALSE, paths |-> <<>>]
+            IF Accepting(st) THEN [ok |-> TRUE, comps |-> Comps(st)]
+            ELSE [ok |-> FALSE, comps |-> <<>>]
+Paths(s) == Expand(Parse(s).comps)
 
 \* a string that names exactly one path: no "," and no "-" (what subkey_for_path takes)
 IsSinglePath(s) == Accepting(Run(s)) /\ \A i \in 1..Len(s) : s[i] \notin {",", "-"}
-SinglePath(s) == Parse(s).paths[1]
+SinglePath(s) == Paths(s)[1]
 
 ---------------------------------------------------------------------------
 (* Independent definition by splitting (used only as a cross-check).          *)
@@ -124,13 +132,13 @@ DItem(r) ==
      ELSE [ok |-> FALSE, lo |-> 0, hi |-> 0, h |-> FALSE]
 
 Denote(s) ==
-  IF s = <<>> THEN [ok |-> TRUE, paths |-> << <<>> >>]
+  IF s = <<>> THEN [ok |-> TRUE, comps |-> <<>>]
   ELSE LET comps == SplitOn(s, "/")
            its == [i \in 1..Len(comps) |-> LET rs == SplitOn(comps[i], ",") IN [j \in 1..Len(rs) |-> DItem(rs[j])]]
        IN IF \A i \in 1..Len(its) : \A j \in 1..Len(its[i]) : its[i][j].ok
-          THEN [ok |-> TRUE, paths |-> Expand([i \in 1..Len(its) |-> [j \in 1..Len(its[i]) |->
-                                                [lo |-> its[i][j].lo, hi |-> its[i][j].hi, h |-> its[i][j].h]]])]
-          ELSE [ok |-> FALSE, paths |-> <<>>]
+          THEN [ok |-> TRUE, comps |-> [i \in 1..Len(its) |-> [j \in 1..Len(its[i]) |->
+                                                [lo |-> its[i][j].lo, hi |-> its[i][j].hi, h |-> its[i][j].h]]]]
+          ELSE [ok |-> FALSE, comps |-> <<>>]
 
 \* every hardening mark rewritten to one spelling
 Respell(s, m) == [i \in 1..Len(s) |-> IF s[i] \in HardMarks THEN m ELSE s[i]]
